@@ -805,9 +805,9 @@ Theorem check_pending_inv cbs nw fuel : forall i s,
 Proof.
   induction fuel as [|f IH]; intros i s WF I; cbn.
   - eapply same_core_RInv; [apply same_core_fail|exact I].
-  - destruct (nth_error (r_wait s) i) as [[r cb]|]; [|exact I].
+  - destruct (nth_error (r_wait s) i) as [[r cb id]|]; [|exact I].
     destruct (can_fulfill (r_pools s) r); [|apply IH; assumption].
-    set (s1 := run_rops nw r (cbs cb) (set_cblog s ((cb, r, nw) :: r_cblog s))).
+    set (s1 := run_rops nw r (cbs cb) (set_cblog s (mkCb cb r nw id (r_pools s) :: r_cblog s))).
     assert (I1 : RInv s1).
     { apply run_rops_inv; [|apply WF]. destruct I as [U C F SL IJ]. split; assumption. }
     destruct (negb (r_err s1 =? 0)); [exact I1|].
